@@ -2,6 +2,7 @@
  * Included by ops.h after the basic create/join/free ops. */
 
 /* ---- blocking "everything finished" wait of the primary ULT ---------- */
+static int g_bulk_moves;
 static ABT_eventual g_done_ev = ABT_EVENTUAL_NULL;
 static int g_main_waiting;
 static int g_wait_exts_only;
@@ -89,7 +90,7 @@ static void check_start_stream(actor *a)
         a->directed = 0;
         return;
     }
-    if (a->expect_pool >= 0 && !a->migr_pending && pi != a->expect_pool)
+    if (a->expect_pool >= 0 && !a->migr_pending && !ALOAD(g_bulk_moves) && pi != a->expect_pool)
         viol("unit u%d was pushed to pool %d but started out of pool %d", a->id,
              a->expect_pool, pi);
     if (G.pool[pi].sub >= 0)
